@@ -81,7 +81,7 @@ def conc_cases(rng, n):
         nodes = [{"id": H(IDS[j]), "addr": H("10.0.0.%d:7000" % (j + 1))} for j in range(2)]
         ref = rng.choice([H("b"), H("zz")])        # a real member or a node only ever heard of
         ops = [{"op": "upsert", "n": 1, "k": H("k"), "v": H("v")}, {"op": "join", "a": 1, "b": 0},
-               {"op": "race_expire", "n": 0, "ref": ref, "i": rng.choice([500, 2000, 4000])},
+               {"op": "race_expire", "n": 0, "ref": ref, "i": rng.choice([5000, 20000, 40000])},
                {"op": "send", "a": 0, "b": 1, "max": 1400}, {"op": "deliver", "i": 0, "max": 1400}, {"op": "deliver", "i": 0, "max": 1400}]
         out.append({"id": "conc%d" % i, "nodes": nodes, "ops": ops})
     return out
